@@ -41,15 +41,15 @@ def run(chk):
         fid = "D1-dump-truncates-before-nested-validation"
         if existed and not same:
             chk.violation("%s dump failed (%s, %s) and the previous file was changed (now %s bytes)" % (c["kind"], outcome, where, size),
-                          {k2: c[k2] for k2 in ("kind", "pre", "inject")}, "fx_dump", fid)
+                          {k2: c.get(k2) for k2 in ("kind", "pre", "inject", "dest")}, "fx_dump", fid)
         if not existed and exists:
             chk.violation("%s dump failed (%s, %s) and left a new file of %s bytes behind" % (c["kind"], outcome, where, size),
-                          {k2: c[k2] for k2 in ("kind", "pre", "inject")}, "fx_dump", fid)
-    chk.add_cases([{k2: c[k2] for k2 in ("kind", "pre", "inject")} for c in cases], [r[0] != "no-error" if isinstance(r, list) else False for r in res])
+                          {k2: c.get(k2) for k2 in ("kind", "pre", "inject", "dest")}, "fx_dump", fid)
+    chk.add_cases([{k2: c.get(k2) for k2 in ("kind", "pre", "inject", "dest")} for c in cases], [r[0] != "no-error" if isinstance(r, list) else False for r in res])
     chk.traces += len(cases)
     chk.obligation("suite:fx_dump", fired > 0, "no injected failure fired" if fired == 0 else "")
     chk.record_suite("fx_dump", {"cases": len(cases), "failures_fired": fired, "per_format": by_kind})
-    chk.samples.extend([{"suite": "fx_dump", "case": {k2: c[k2] for k2 in ("kind", "pre", "inject")}, "impl": r} for c, r in list(zip(cases, res))[:6]])
+    chk.samples.extend([{"suite": "fx_dump", "case": {k2: c.get(k2) for k2 in ("kind", "pre", "inject", "dest")}, "impl": r} for c, r in list(zip(cases, res))[:6]])
     return chk.finish(
         level="proof",
         rule="for each of the seven formats: a valid object is written to the destination (or the destination does not exist), then a "
